@@ -300,8 +300,10 @@ def run_shard(spec, ctx, acc):
             for bf in (1, 0):
                 if not has_hp(t.defn):
                     sb = inst.map(lambda nodes, bf=bf: dict(base, bf=bf, nodes=nodes, subset=None))
+                    from vp.props import c13
+
                     core.hyp_search(acc, sb, check, seed=core.derive(ctx["seed"], PROP, "B", t.label, bf),
-                                    max_examples=n, known=known, rounds=3)
+                                    max_examples=n, known=known, rounds=3, history=c13.related_history)
                 else:
                     acc.skipped["relation-B-skipped:_HP-merge"] += 1
 
